@@ -87,9 +87,10 @@ type Server struct {
 	methods              map[string]*methodInfo
 	serverID             string
 	serviceName          string
-	protocolVersion      string // canonical semver MAJOR.MINOR.PATCH, or "" when opted out
-	protocolVersionParts [3]int // parsed (major, minor, patch); used when protocolVersion != ""
-	protocolVersionSet   bool   // true when SetProtocolVersion was called with a non-empty value
+	protocolVersion      string    // canonical semver MAJOR.MINOR.PATCH, or "" when opted out
+	protocolVersionParts [3]int    // parsed (major, minor, patch); used when protocolVersion != ""
+	protocolVersionComps [3]string // the same components verbatim (exact for any magnitude)
+	protocolVersionSet   bool      // true when SetProtocolVersion was called with a non-empty value
 	protocolHash         string
 	protocolHashOnce     sync.Once
 	dispatchHook         DispatchHook
@@ -277,6 +278,7 @@ func (s *Server) SetProtocolVersion(v string) {
 		s.protocolVersion = ""
 		s.protocolVersionSet = false
 		s.protocolVersionParts = [3]int{}
+		s.protocolVersionComps = [3]string{}
 		return
 	}
 	major, minor, patch, err := parseSemver(v)
@@ -285,6 +287,7 @@ func (s *Server) SetProtocolVersion(v string) {
 	}
 	s.protocolVersion = v
 	s.protocolVersionParts = [3]int{major, minor, patch}
+	s.protocolVersionComps, _ = semverComponents(v)
 	s.protocolVersionSet = true
 }
 
@@ -312,7 +315,7 @@ func (s *Server) checkProtocolVersion(clientVersion string, present bool) *Proto
 				"non-VGI client connecting to a VGI worker.",
 		}
 	}
-	major, minor, _, err := parseSemver(clientVersion)
+	client, err := semverComponents(clientVersion)
 	if err != nil {
 		return &ProtocolVersionError{
 			Message: "VGI client/worker protocol_version mismatch.\n" +
@@ -322,12 +325,13 @@ func (s *Server) checkProtocolVersion(clientVersion string, present bool) *Proto
 				"Expected canonical semver MAJOR.MINOR.PATCH.",
 		}
 	}
-	serverMajor, serverMinor := s.protocolVersionParts[0], s.protocolVersionParts[1]
-	if major == serverMajor && minor == serverMinor {
+	cmpMajor := compareDecimal(client[0], s.protocolVersionComps[0])
+	cmpMinor := compareDecimal(client[1], s.protocolVersionComps[1])
+	if cmpMajor == 0 && cmpMinor == 0 {
 		return nil
 	}
 	var direction string
-	if major < serverMajor || (major == serverMajor && minor < serverMinor) {
+	if cmpMajor < 0 || (cmpMajor == 0 && cmpMinor < 0) {
 		direction = "client is too old; upgrade the VGI extension/client to a " +
 			"version supporting protocol_version " + s.protocolVersion + "."
 	} else {
